@@ -298,24 +298,12 @@ class EventDispatcher(object):
                 x_declare = ', "x-declare": {"arguments": {"x-queue-type": "quorum"}}'
 
             """
-            The asl_workflow_events queue is a shared event queue, that is to
-            say every asl_workflow_engine instance receives events from this
-            queue. This is used to publish StartExecution events to and is non-
-            exclusive so multiple asl_workflow_engine instances can consume from
-            it and will thus load-balance executions across multiple instances.
+            The per-instance consumer is set up before the shared one: as soon
+            as the shared consumer is subscribed the broker may deliver start
+            events that are already waiting, and handling one publishes the
+            execution's next event to the per-instance queue, which therefore
+            has to exist by then (otherwise the broker silently drops it).
             """
-            shared_queue = (
-                self.queue_name + 
-                '; {"node": {"durable": true' + x_declare + '}}'
-            )
-            shared_event_consumer = await self.session.consumer(shared_queue)
-            # Enable consumer prefetch
-            self.logger.info("Setting shared_event_consumer.capacity to {}".format(
-                self.shared_event_consumer_capacity)
-            )
-            shared_event_consumer.capacity = self.shared_event_consumer_capacity
-            await shared_event_consumer.set_message_listener(self.dispatch)
-
             """
             the instance_event_consumer is an event queue that is set up for
             each asl_workflow_engine instance. This should be an exclusive
@@ -341,6 +329,25 @@ class EventDispatcher(object):
             )
             instance_event_consumer.capacity = self.instance_event_consumer_capacity
             await instance_event_consumer.set_message_listener(self.dispatch)
+
+            """
+            The asl_workflow_events queue is a shared event queue, that is to
+            say every asl_workflow_engine instance receives events from this
+            queue. This is used to publish StartExecution events to and is non-
+            exclusive so multiple asl_workflow_engine instances can consume from
+            it and will thus load-balance executions across multiple instances.
+            """
+            shared_queue = (
+                self.queue_name + 
+                '; {"node": {"durable": true' + x_declare + '}}'
+            )
+            shared_event_consumer = await self.session.consumer(shared_queue)
+            # Enable consumer prefetch
+            self.logger.info("Setting shared_event_consumer.capacity to {}".format(
+                self.shared_event_consumer_capacity)
+            )
+            shared_event_consumer.capacity = self.shared_event_consumer_capacity
+            await shared_event_consumer.set_message_listener(self.dispatch)
 
             """
             Start a periodic "heartbeat". The idea of this is that sometimes
